@@ -127,8 +127,10 @@ C06Notations ==
        \* <hour> in the <part of day>: afternoon/evening/night make hours below 12 pm
        /\ (ReqH >= 13 => \A p \in {"afternoon", "evening", "night"} \cap DOMAIN PodTable :
               A2("ruleTODPOD", A1("ruleHHMM", Tok(128, ReqH - 12, X, X, "X")), A1("rulePOD", Tok(107, X, X, X, p))) = Want)
-       \* hour 0 is midnight next to any part of day ("0 uhr nachts"; repaired in 18d3c04)
-       /\ (ReqH = 0 => \A p \in {"afternoon", "evening", "night", "morning"} \cap DOMAIN PodTable :
+       \* hour 0 next to an afternoon part of day is noon's hour ("halb eins nachmittags" reaches the rule as 0:30)
+       /\ (ReqH = 12 => A2("ruleTODPOD", A1("ruleHHMM", Tok(128, 0, X, X, "X")), A1("rulePOD", Tok(107, X, X, X, "afternoon"))) = Want)
+       \* hour 0 at night / in the evening / in the morning is midnight ("0 uhr nachts"; repaired in 18d3c04, d1bf5c6)
+       /\ (ReqH = 0 => \A p \in {"evening", "night", "morning"} \cap DOMAIN PodTable :
               A2("ruleTODPOD", A1("ruleHHMM", Tok(128, 0, X, X, "X")), A1("rulePOD", Tok(107, X, X, X, p))) = Want)
        /\ (ReqH \in 1..11 => \A p \in {"morning", "forenoon"} \cap DOMAIN PodTable :
               A2("ruleTODPOD", A1("ruleHHMM", Tok(128, ReqH, X, X, "X")), A1("rulePOD", Tok(107, X, X, X, p))) = Want)
